@@ -158,11 +158,24 @@ fn main() {
             // a replayed hang must be reported as one, not hang the replayer
             {
                 let p2 = path.clone();
+                let slot = simkernel::heartbeat::slot();
                 std::thread::spawn(move || {
-                    std::thread::sleep(std::time::Duration::from_secs(25));
-                    println!("VIOLATION property={} replay={}", replayed_prop, p2);
-                    println!("  class={}:hang detail=the replayed run did not return within 25 s", replayed_prop);
-                    std::process::exit(1);
+                    // no heartbeat for 25 s = hang (a long replay on a loaded machine is not one)
+                    let mut last = simkernel::heartbeat::read(slot);
+                    let mut since = std::time::Instant::now();
+                    loop {
+                        std::thread::sleep(std::time::Duration::from_millis(500));
+                        let b = simkernel::heartbeat::read(slot);
+                        if b != last {
+                            last = b;
+                            since = std::time::Instant::now();
+                        }
+                        if since.elapsed() > std::time::Duration::from_secs(25) {
+                            println!("VIOLATION property={} replay={}", replayed_prop, p2);
+                            println!("  class={}:hang detail=the replayed run made no progress for 25 s", replayed_prop);
+                            std::process::exit(1);
+                        }
+                    }
                 });
             }
             match runner::replay_file(&lookup, &path) {
